@@ -17,6 +17,10 @@ Wiring for a property module tools/cv/cxx.py (the lead adds these lines):
     #   _old_extract = globals().get("EXTRACT", lambda repo: {})
     #   EXTRACT = lambda repo: {**_old_extract(repo), **srctie.extract_for("Cxx", repo)}
 
+Three tables: TABLE (`wire`, straight-line functions and — C12 — decision trees: Generated/SrcCxx.lean), TABLE_LOOPS
+(`wire_loops`, loops / iterator chains: Generated/SrcCxxLoops.lean), TABLE_MUT (`wire_mut`, in-place mutation / nested loops /
+early exit / loop and assignment fragments: Generated/SrcCxxMut.lean).  A property may have one of each.
+
 CLI:  python3 tools/cv/srctie.py [--repo /repo] [--write] [--outdir DIR] [C17 C20 ...]
       (no --write: prints a diff summary against the committed copies; --outdir writes there instead of lean/)
 """
@@ -255,7 +259,31 @@ C16 = dict(
     ],
 )
 
-TABLE = {"C02": C02, "C06": C06, "C07": C07, "C09": C09, "C16": C16, "C17": C17, "C20": C20}
+# --------------------------------------------------------------------------------------------------- C12
+# (third pass of the translator, option `mut`: decision trees returning tuples of enum values, with `assert!`s)
+_BC = "Nat → Nat → Nat → Nat → Option (Cv.Bc × Cv.Bc)"
+C12 = dict(
+    imports=["Compute.Model.Broadcast"],
+    variables="{α : Type}",
+    about="src/linalg/array/broadcast.rs: the classifier `calc_broadcast_shape` (decision tree over the two shapes, two `assert!`s,\n"
+          "the operand swap).  A `&Matrix` parameter `m` is the pair of binders `m_nrows m_ncols`; `m.shape()` is the array\n"
+          "`[m.nrows, m.ncols]` (`==` on arrays is the conjunction of the component equalities, `.contains(&1)` the disjunction);\n"
+          "`Broadcast::X` is `Cv.Bc.x`; the result array `[b1, b2]` is a pair; `none` = a failed `assert!`.\n"
+          "The function is recursive (`calc_broadcast_shape(m2, m1)` on the swapped operands): the recursive call is the\n"
+          "parameter `rec` (as for `gamma` / `erf` in SrcC09).",
+    functions=[
+        ("src/linalg/array/broadcast.rs", "calc_broadcast_shape", O(
+            "calcBroadcastShape", mut=True, int_arith=True, adts={"Broadcast": "Cv.Bc"},
+            adt_ctors={"Broadcast::Hstack": "Cv.Bc.hstack", "Broadcast::Vstack": "Cv.Bc.vstack",
+                       "Broadcast::IsScalar": "Cv.Bc.isScalar", "Broadcast::None": "Cv.Bc.none",
+                       "Broadcast::Invalid": "Cv.Bc.invalid"},
+            struct_types={"Matrix": [("nrows", "nat"), ("ncols", "nat")]},
+            struct_methods={"Matrix": {"shape": ["nrows", "ncols"]}},
+            fns={"calc_broadcast_shape": "rec"}, opt_fns=("calc_broadcast_shape",), extra_binders=[("rec", _BC)])),
+    ],
+)
+
+TABLE = {"C02": C02, "C06": C06, "C07": C07, "C09": C09, "C12": C12, "C16": C16, "C17": C17, "C20": C20}
 
 # =================================================================================================== LOOPS
 # Second pass of the translator: the simple loop / iterator-chain subset (`Opts(loops=True)`, see tools/rs2lean.py,
@@ -385,6 +413,268 @@ REQUIRED_LOOPS = {
     "C14": ["Cv.SrcTie.C14Loops.predict_eq"],
 }
 
+# =================================================================================================== MUT
+# Third pass of the translator: in-place mutation / nested loops / decision trees (`Opts(mut=True)`, see tools/rs2lean.py,
+# "In-place mutation, nested loops, decision trees").  Whole functions; the generated files are
+# Compute/Generated/SrcCxxMut.lean (namespace Cv.Src.CxxMut), the equivalence theorems Compute/Props/SrcTieCxxMut.lean,
+# the general "loop with `List.set` = recursion / append" lemmas Compute/Lemmas/SrcMut.lean.
+# Reads `v[i]` of f64 vectors are `Cv.LA.rd v i` (= `v.getD i 0`), writes `v[i] = e` are `List.set v i e`, `v.swap(a, b)` is
+# `Cv.LA.swapIdx v a b` — the spellings of Model/Decomp.lean; out-of-range indices (a Rust panic) are NOT modelled.
+MUT_CLASSES = LOOP_CLASSES
+_M = dict(mut=True, int_arith=True, index_read="Cv.LA.rd {0} {1}")
+_DEC = "src/linalg/decomposition/"
+_C11F = {"is_square": "Cv.LA.isSquare {0}.length", "dot": "Cv.dot8", "cmp::min": "min", "is_symmetric": "Cv.LA.isSymmetric",
+         "transpose": "Cv.LA.transpose", "try_cholesky": "tryCholesky", "forward_substitution": "forwardSubstitution junk",
+         "backward_substitution": "backwardSubstitution junk"}
+_C11R = {"is_square": "nat", "cmp::min": "nat", "is_symmetric": "bool", "transpose": "vec", "try_cholesky": ("opt", "vec"),
+         "forward_substitution": "vec", "backward_substitution": "vec"}
+_C11O = ("is_square", "is_symmetric", "transpose", "try_cholesky", "forward_substitution", "backward_substitution")
+_JUNK = [("junk", "Nat → α")]
+_UNINIT = "(List.map junk (List.range {0}))"
+
+
+def _m(file, path, name, **kw):
+    o = dict(_M)
+    o.update(kw)
+    return (file, path, O(name, **o))
+
+
+def _c11(file, path, name, **kw):
+    return _m(_DEC + file, path, name, fns=dict(_C11F), fn_ret=dict(_C11R), opt_fns=_C11O,
+              bool_methods={"is_nan": "Cv.LA.isNan {0} = true"}, **kw)
+
+
+C11M = dict(
+    imports=["Compute.Model.Scalar", "Compute.Model.Kernels", "Compute.Model.Decomp"],
+    variables=MUT_CLASSES,
+    about="src/linalg/decomposition/{substitution,lu,cholesky}.rs: whole functions (in-place updates of `let mut` vectors in\n"
+          "nested `for` loops, `if` statements that only mutate, the early `return None` of `try_cholesky`).\n"
+          "`v[i]` is `Cv.LA.rd v i`, `v[i] = e` is `List.set v i e`, `v.swap(a, b)` is `Cv.LA.swapIdx v a b`, a slice `&v[lo..hi]` is\n"
+          "`take (hi - lo) (drop lo v)` (index / slice panics are not modelled); `is_square(m).unwrap()` is `Cv.LA.isSquare m.length`\n"
+          "(`none` = panic), `is_symmetric` is `Cv.LA.isSymmetric`, `transpose` is `Cv.LA.transpose`, `dot` is the shared unrolled\n"
+          "kernel `Cv.dot8` (its length assert is not modelled), `cmp::min` is `min`, `x.is_nan()` is `Cv.LA.isNan x`.\n"
+          "`Vec::with_capacity(n)` + `set_len(n)` (uninitialised memory) is a vector of `n` ARBITRARY values `junk 0 .. junk (n-1)`.\n"
+          "`Vec<i32>` pivots are `List Int` (`x as i32` is the cast `Nat → Int`, `p as usize` is `Int.toNat`; wrap-around not modelled).\n"
+          "A loop with an early `return None` is a `List.foldlM` in `Option`; the function's own `Option` is the inner one, the outer\n"
+          "`Option` is `none` = panic.  Calls of functions of this table go to the generated definitions.",
+    functions=[
+        _c11("substitution.rs", "forward_substitution", "forwardSubstitution", extra_binders=_JUNK, uninit=_UNINIT),
+        _c11("substitution.rs", "backward_substitution", "backwardSubstitution", extra_binders=_JUNK, uninit=_UNINIT),
+        _c11("lu.rs", "lu", "lu"),
+        _c11("lu.rs", "lu_solve", "luSolve"),
+        _c11("cholesky.rs", "try_cholesky", "tryCholesky"),
+        _c11("cholesky.rs", "cholesky", "cholesky"),
+        _c11("cholesky.rs", "cholesky_solve", "choleskySolve", extra_binders=_JUNK),
+    ],
+)
+
+_UT = "src/linalg/utils.rs"
+_ISM = dict(fns={"is_matrix": "Cv.Shape.isMatrixU {0}.length {1}"}, fn_ret={"is_matrix": "nat"}, opt_fns=("is_matrix",))
+_MAT = ("adt", "Matrix", "Cv.Mat α")
+_MATS = dict(adts={"Matrix": "Cv.Mat α"}, struct_types={"Matrix": [("data", "vec"), ("nrows", "nat"), ("ncols", "nat")]},
+             struct_mk={"Matrix": "Cv.Mat.mk"})
+_ROT = dict(adts={"Axis": "Cv.Rot.Axis", "Matrix": "Cv.Mat α"},
+            adt_ctors={"Axis::X": "Cv.Rot.Axis.X", "Axis::Y": "Cv.Rot.Axis.Y", "Axis::Z": "Cv.Rot.Axis.Z"},
+            fns={"Matrix::new": "Cv.Shape.mnew"}, fn_ret={"Matrix::new": _MAT}, opt_fns=("Matrix::new",))
+C15M = dict(
+    imports=["Compute.Model.Scalar", "Compute.Model.Constructors", "Compute.Model.Rotations"],
+    variables=MUT_CLASSES,
+    about="src/linalg/utils.rs: the constructors `linspace`, `diag`, `vandermonde`, `transpose`, `row_to_col_major`,\n"
+          "`col_to_row_major`, `diag_matrix`, `arange`, `toeplitz` (whole functions); `is_matrix(a, r).unwrap()` is\n"
+          "`Cv.Shape.isMatrixU a.length r`; `x as usize` of an f64 (saturating cast) is the PARAMETER `toUsize`; `0..n as i32` is the\n"
+          "list of the casts `(k : Int)`, `k < n`, `(e) as usize` of an `i32` is `Int.toNat`, `(i - j).abs() as usize` is `Int.natAbs`.\n"
+          "src/linalg/array/matrix.rs `Matrix::eye` and src/linalg/rotations.rs `rotation_matrix_cw` / `_ccw`: a `Matrix` value is the\n"
+          "record `Cv.Mat α` (`m.data[i] = e` updates the field, the result is `Cv.Mat.mk data nrows ncols`), `Matrix::new` /\n"
+          "`Self::zeros` are `Cv.Shape.mnew` / `Cv.Ctor.zeros` (`none` = panic), `match axis { .. }` is a Lean `match`, an array\n"
+          "literal of f64 is a list.\n"
+          "`Vector` is `List α` (`Vector::new` / `Vector::from` / `collect::<Vector>()` are the identity), `vec![a]` is `[a]`,\n"
+          "`v.push(e)` in a loop is `acc ++ [e]`, `x[i]` is `x[i]!` (index panics not modelled), `(num - 1)` of `usize` is CHECKED\n"
+          "(guard `1 ≤ num`), `is_square(a).unwrap()` is `Cv.Ctor.isSquareLen a.length` (`none` = panic), `v.powi(i as i32)` is\n"
+          "`Cv.powi v (i : Int)` (the `i32` wrap of `i as i32` is not modelled).",
+    functions=[
+        _m(_UT, "linspace", "linspace", index_read=None),
+        _m(_UT, "diag", "diag", index_read=None, fns={"is_square": "Cv.Ctor.isSquareLen {0}.length"},
+           fn_ret={"is_square": "nat"}, opt_fns=("is_square",)),
+        _m(_UT, "vandermonde", "vandermonde", index_read=None),
+        # fourth pass
+        _m(_UT, "transpose", "transpose", index_read=None, **_ISM),
+        _m(_UT, "row_to_col_major", "rowToColMajor", index_read=None, **_ISM),
+        _m(_UT, "col_to_row_major", "colToRowMajor", index_read=None, **_ISM),
+        _m(_UT, "diag_matrix", "diagMatrix", index_read=None),
+        _m(_UT, "arange", "arange", index_read=None, f64_to_usize="toUsize {0}", extra_binders=[("toUsize", "α → Nat")]),
+        _m(_UT, "toeplitz", "toeplitz", index_read=None),
+        _m("src/linalg/array/matrix.rs", "Matrix::eye", "eye", index_read=None, fns={"Self::zeros": "Cv.Ctor.zeros"},
+           fn_ret={"Self::zeros": _MAT}, opt_fns=("Self::zeros",), **_MATS),
+        _m("src/linalg/rotations.rs", "rotation_matrix_cw", "rotationMatrixCw", index_read=None, **_ROT),
+        _m("src/linalg/rotations.rs", "rotation_matrix_ccw", "rotationMatrixCcw", index_read=None, **_ROT),
+    ],
+)
+
+C19M = dict(
+    imports=["Compute.Model.Scalar", "Compute.Model.Resample"],
+    variables=MUT_CLASSES,
+    about="src/validation/resample.rs: `jackknife` (whole function).  `data.split_at(i)` is `(take i data, drop i data)`,\n"
+          "`back.split_first().unwrap()` is `(back[0]!, back.tail)` (the panic on an empty slice is an index panic: not modelled —\n"
+          "the model `Cv.Resample.leaveOut` keeps it, and SrcTieC19Mut proves it cannot happen), `v.extend_from_slice(rest)` is\n"
+          "`v ++ rest`, `resamples.push(v)` is `resamples ++ [v]`.",
+    functions=[
+        _m("src/validation/resample.rs", "jackknife", "jackknife", index_read=None),
+    ],
+)
+
+C05M = dict(
+    imports=["Compute.Model.Scalar", "Compute.Model.Matmul"],
+    variables=MUT_CLASSES,
+    about="src/linalg/utils.rs: the naive product loops of `matmul` (`#[cfg(not(feature = \"blas\"))]` path) as a FRAGMENT:\n"
+          "`for i in 0..m { for k in 0..l { let temp = a[i*l+k]; for j in 0..n { c[i*n+j] += temp * b[k*n+j]; } } }` as a function of\n"
+          "its free variables `a b c m l n` (the value is `c` after the loops).  The function as a whole (`#[cfg]` blocks, the\n"
+          "recursive both-transposed shortcut, `if`-expressions that call `transpose`) is outside the subset and stays covered by the\n"
+          "bit-exact tie; so do the tile loops of `matmul_blocked` (their bounds contain the `usize` division `n / bsize`, a panic\n"
+          "source inside a loop header).  `x[i]` is `x[i]!`, `c[i] += e` is `List.set c i (c[i]! + e)` (index panics not modelled).",
+    functions=[
+        (_UT, "matmul", O("matmulLoops", mut=True, int_arith=True, closure=dict(kind="for", index=0, free={
+            "a": ("a", "vec"), "b": ("b", "vec"), "c": ("c", "vec", "mut"), "m": ("m", "nat"), "l": ("l", "nat"),
+            "n": ("n", "nat")}))),
+    ],
+)
+
+_AD = "src/optimize/adam.rs"
+_SG = "src/optimize/sgd.rs"
+
+
+# every fragment takes ALL hyper-parameters as binders, so that a formula using the wrong one is still inside the subset
+# (and fails its theorem) instead of degrading to a note
+_ADHP = {"self.stepsize": "ss", "self.beta1": "b1", "self.beta2": "b2", "self.epsilon": "eps"}
+_SGHP = {"self.stepsize": "ss", "self.momentum": "mom"}
+
+
+def _fm(file, fn, leanname, **frag):
+    return (file, fn, O(leanname, mut=True, int_arith=True, closure=frag))
+
+
+C10M = dict(
+    imports=["Compute.Model.Scalar"],
+    variables=MUT_CLASSES,
+    about="src/optimize/adam.rs, src/optimize/sgd.rs: the per-parameter update formulas of the `for p in 0..param_len` loops of\n"
+          "`Adam::optimize` / `SGD::optimize` as scalar FRAGMENTS (right-hand sides of the assignments `m[p] = ..`, `v[p] = ..`,\n"
+          "`params[p] = ..`, `update_vec[p] = ..` and the `let`s `mhat`, `vhat`).  `m[p]`, `v[p]`, `grad[p]`, `update_vec[p]`, `params[p]` are\n"
+          "scalars, `self.beta1` … binders; `params[p]` is a tape variable `reverse::Var`: its value, and `Var - f64` is spelled as the\n"
+          "crate implements it, `val + (-rhs)`; `t as i32` is the cast `Nat → Int` (the `i32` wrap is not modelled).  The\n"
+          "functions as a whole (`while`, closures over the tape, `eprintln!`) are outside the subset.",
+    functions=[
+        _fm(_AD, "Adam::optimize", "adamM", kind="assign", name="m", index=0, free=dict(_ADHP),
+            index_vars={("m", "p"): "m", ("grad", "p"): "g"}),
+        _fm(_AD, "Adam::optimize", "adamV", kind="assign", name="v", index=0, free=dict(_ADHP),
+            index_vars={("v", "p"): "v", ("grad", "p"): "g"}),
+        _fm(_AD, "Adam::optimize", "adamMhat", kind="let", name="mhat", free=dict(_ADHP, t=("t", "nat")),
+            index_vars={("m", "p"): "m'"}),
+        _fm(_AD, "Adam::optimize", "adamVhat", kind="let", name="vhat", free=dict(_ADHP, t=("t", "nat")),
+            index_vars={("v", "p"): "v'"}),
+        _fm(_AD, "Adam::optimize", "adamTheta", kind="assign", name="params", index=0,
+            free=dict(_ADHP, mhat="mhat", vhat="vhat"), index_vars={("params", "p"): ("θ", "var")}),
+        _fm(_SG, "SGD::optimize", "sgdU", kind="assign", name="update_vec", index=0, free=dict(_SGHP),
+            index_vars={("update_vec", "p"): "u", ("grad", "p"): "g"}),
+        _fm(_SG, "SGD::optimize", "sgdTheta", kind="assign", name="params", index=0, free=dict(_SGHP),
+            index_vars={("params", "p"): ("θ", "var"), ("update_vec", "p"): "u'"}),
+    ],
+)
+
+_C01F = {"is_square": "Cv.LA.isSquare {0}.length", "is_matrix": "Cv.LA.isMatrix {0}.length {1}",
+         "row_to_col_major": "Cv.LA.rowToColMajor", "col_to_row_major": "Cv.LA.colToRowMajor",
+         "is_positive_definite": "Cv.LA.isPositiveDefinite", "is_exactly_symmetric": "Cv.LA.isExactlySymmetric",
+         "try_cholesky": "Cv.LA.tryCholesky", "cholesky_solve": "Cv.LA.choleskySolve", "lu": "Cv.LA.lu",
+         "lu_solve": "Cv.LA.luSolve", "diag_matrix": "Cv.Src.C15Mut.diagMatrix", "solve_sys": "solveSys"}
+_C01R = {"is_square": "nat", "is_matrix": "nat", "row_to_col_major": "vec", "col_to_row_major": "vec",
+         "is_positive_definite": "bool", "is_exactly_symmetric": "bool", "try_cholesky": ("opt", "vec"),
+         "cholesky_solve": "vec", "lu": ("tup", ("vec", ("list", "nat"))), "lu_solve": "vec", "diag_matrix": "vec",
+         "solve_sys": "vec"}
+_C01O = ("is_square", "is_matrix", "row_to_col_major", "col_to_row_major", "is_positive_definite", "is_exactly_symmetric",
+         "try_cholesky", "cholesky_solve", "lu", "lu_solve", "solve_sys")
+
+
+def _c01(path, name):
+    return _m(_UT, path, name, index_read=None, fns=dict(_C01F), fn_ret=dict(_C01R), opt_fns=_C01O, cfg_features="CARGO")
+
+
+C01M = dict(
+    imports=["Compute.Model.Scalar", "Compute.Model.Solve", "Compute.Generated.SrcC15Mut"],
+    variables=MUT_CLASSES,
+    about="src/linalg/utils.rs: the solver entry points `solve`, `solve_sys`, `invert_matrix` as WHOLE functions (`#[cfg(feature =\n"
+          "\"lapack\")]` blocks resolved with the default cargo features, CFG_FEATURES below).  Called crate functions are the model\n"
+          "functions of Model/Decomp.lean / Solve.lean (`none` = panic): `is_square(m).unwrap()` = `Cv.LA.isSquare m.length`,\n"
+          "`is_matrix(m, r).unwrap()` = `Cv.LA.isMatrix m.length r`, `row_to_col_major`, `col_to_row_major`, `is_positive_definite`,\n"
+          "`is_exactly_symmetric` (`Option Bool`), `try_cholesky` (`Option (Option _)`), `cholesky_solve`, `lu` (pivots as `List Nat`, as the\n"
+          "model keeps them), `lu_solve`; `diag_matrix` is the generated `Cv.Src.C15Mut.diagMatrix`.  The short-circuit `p(a) && q(a)` of two\n"
+          "panicking predicates evaluates `q` only when `p` holds; `if c { try_cholesky(a) } else { None }` is evaluated in `Option`;\n"
+          "`if let Some(l) = l { A } else { B }` is a `match`; the per-column loops (`cholesky_solve` / `lu_solve` + `assert_eq!` inside the\n"
+          "body) are `List.foldlM` in the panic `Option`; `solutions.extend_from_slice(&sol)` is `solutions ++ sol`.",
+    functions=[
+        _c01("solve", "solve"),
+        _c01("solve_sys", "solveSys"),
+        _c01("invert_matrix", "invertMatrix"),
+    ],
+)
+
+TABLE_MUT = {"C01": C01M, "C05": C05M, "C10": C10M, "C11": C11M, "C15": C15M, "C19": C19M}
+
+# theorems of Compute/Props/SrcTieCxxMut.lean the check must find
+REQUIRED_MUT = {
+    "C01": ["Cv.SrcTie.C01Mut.solve_eq", "Cv.SrcTie.C01Mut.solveSys_eq", "Cv.SrcTie.C01Mut.invertMatrix_eq"],
+    "C05": ["Cv.SrcTie.C05Mut.matmulLoops_eq"],
+    "C10": ["Cv.SrcTie.C10Mut.adamCoord_eq", "Cv.SrcTie.C10Mut.sgdCoord_eq", "Cv.SrcTie.C10Mut.sgdUpd_cons"],
+    "C11": ["Cv.SrcTie.C11Mut." + n for n in (
+        "forwardSubstitution_eq", "backwardSubstitution_eq", "lu_eq", "luSolve_eq", "tryCholesky_eq", "cholesky_eq",
+        "choleskySolve_eq")],
+    "C15": ["Cv.SrcTie.C15Mut." + n for n in ("linspace_eq", "diag_eq", "vandermonde_eq", "transpose_eq", "rowToColMajor_eq",
+                                              "colToRowMajor_eq", "diagMatrix_eq", "arange_eq", "toeplitz_eq", "eye_eq",
+                                              "rotationMatrixCw_eq", "rotationMatrixCcw_eq")],
+    "C19": ["Cv.SrcTie.C19Mut.jackknife_eq"],
+}
+
+# =================================================================================================== MUT2
+# Fourth pass: further whole functions of properties that already have a (wired) TABLE_MUT entry go to a SECOND table, so
+# that the committed Generated/SrcCxxMut.lean files stay byte-identical: Generated/SrcCxxMut2.lean (namespace
+# Cv.Src.CxxMut2), Props/SrcTieCxxMut2.lean, `wire_mut2(globals(), "Cxx")`.  Same translator option (`mut`).
+def _cargo_default_features(repo="/repo"):
+    """the cargo features the crate is built with by default: the `default = [..]` entry of `[features]` in Cargo.toml
+    (none if there is no such entry)"""
+    try:
+        txt = open(os.path.join(repo, "Cargo.toml")).read()
+    except OSError:
+        return ()
+    m = re.search(r"^\[features\](.*?)(^\[|\Z)", txt, re.S | re.M)
+    if not m:
+        return ()
+    d = re.search(r"^default\s*=\s*\[(.*?)\]", m.group(1), re.S | re.M)
+    return tuple(re.findall(r'"([^"]+)"', d.group(1))) if d else ()
+
+
+_MMF = {"is_matrix": "Cv.isMatrix", "transpose": "Cv.transpose", "std::cmp::min": "min", "cmp::min": "min"}
+_MMR = {"is_matrix": "nat", "transpose": "vec", "matmul": "vec", "std::cmp::min": "nat", "cmp::min": "nat"}
+_MMREC = [("rec", "List α → List α → Nat → Nat → Bool → Bool → Option (List α)")]
+C05M2 = dict(
+    imports=["Compute.Model.Scalar", "Compute.Model.Matmul"],
+    variables=MUT_CLASSES,
+    about="src/linalg/utils.rs: `matmul` and `matmul_blocked` as WHOLE functions.  `#[cfg(feature = ..)]` blocks are resolved with the\n"
+          "features the crate is built with by default (`default` entry of `[features]` in Cargo.toml; CFG_FEATURES below): a block\n"
+          "that is not compiled in is skipped, the enabled one is inlined.  `is_matrix(a, r).unwrap()` is `Cv.isMatrix a r`, `transpose`\n"
+          "is `Cv.transpose` (`none` = panic); `let a = if transpose_a { transpose(a, rows_a) } else { a.to_vec() }` is evaluated in\n"
+          "`Option` (only the taken branch can panic); the recursive call of `matmul` (both-transposed shortcut) is the parameter `rec`;\n"
+          "the `usize` divisions `n / bsize`, `l / bsize` of the tile-loop headers are guarded once by `0 < bsize` around the loop nest.",
+    functions=[
+        _m(_UT, "matmul", "matmul", index_read=None, fns=dict(_MMF, matmul="rec"), fn_ret=dict(_MMR),
+           opt_fns=("is_matrix", "transpose", "matmul"), extra_binders=_MMREC, cfg_features="CARGO"),
+        _m(_UT, "matmul_blocked", "matmulBlocked", index_read=None, fns=dict(_MMF), fn_ret=dict(_MMR),
+           opt_fns=("is_matrix", "transpose"), cfg_features="CARGO"),
+    ],
+)
+
+TABLE_MUT2 = {"C05": C05M2}
+
+REQUIRED_MUT2 = {
+    "C05": ["Cv.SrcTie.C05Mut2.matmul_eq", "Cv.SrcTie.C05Mut2.matmulBlocked_eq"],
+}
+
 # theorems of Compute/Props/SrcTieCxx.lean the check must find (REQUIRED_THEOREMS += srctie.REQUIRED["Cxx"])
 REQUIRED = {
     "C02": [
@@ -417,6 +707,9 @@ REQUIRED = {
         "Cv.SrcTie.C09.beta_eq", "Cv.SrcTie.C09.gamma_eq", "Cv.SrcTie.C09.gamma_else_eq", "Cv.SrcTie.C09.lnGamma_eq",
         "Cv.SrcTie.C09.lnGamma_else_eq", "Cv.SrcTie.C09.erf_eq", "Cv.SrcTie.C09.erf_then_eq",
         "Cv.SrcTie.C09.erfF_step",
+    ],
+    "C12": [
+        "Cv.SrcTie.C12.calcBroadcastShape_eq", "Cv.SrcTie.C12.calcBroadcastShape_fix",
     ],
     "C16": [
         "Cv.SrcTie.C16.interpOne_eq",
@@ -476,18 +769,71 @@ def wire_loops(mod_globals, pid):
     g["EXTRACT"] = _extract
 
 
+def wire_mut(mod_globals, pid):
+    """Same as `wire` for the in-place mutation / decision tree tables:  `srctie.wire_mut(globals(), "Cxx")` adds the proof
+    module `Compute.Props.SrcTieCxxMut`, its required theorems, and chains EXTRACT with Generated/SrcCxxMut.lean."""
+    g = mod_globals
+    g["PROOF_MODULES"] = list(g.get("PROOF_MODULES", [])) + ["Compute.Props.SrcTie%sMut" % pid]
+    g["REQUIRED_THEOREMS"] = list(g.get("REQUIRED_THEOREMS", [])) + REQUIRED_MUT[pid]
+    old = g.get("EXTRACT") or (lambda repo: {})
+    def _extract(repo):
+        from . import common as _c
+        files, notes = {}, []
+        for fn in (old, lambda r: extract_for(pid + "Mut", r)):
+            try:
+                files.update(fn(repo))
+            except _c.SourceDrift as e:
+                files.update(e.files)
+                notes.append(str(e))
+        if notes:
+            raise _c.SourceDrift(" || ".join(notes), files)
+        return files
+    g["EXTRACT"] = _extract
+
+
+def wire_mut2(mod_globals, pid):
+    """Same as `wire_mut` for TABLE_MUT2:  `srctie.wire_mut2(globals(), "Cxx")` adds `Compute.Props.SrcTieCxxMut2`, its
+    required theorems, and chains EXTRACT with Generated/SrcCxxMut2.lean."""
+    g = mod_globals
+    g["PROOF_MODULES"] = list(g.get("PROOF_MODULES", [])) + ["Compute.Props.SrcTie%sMut2" % pid]
+    g["REQUIRED_THEOREMS"] = list(g.get("REQUIRED_THEOREMS", [])) + REQUIRED_MUT2[pid]
+    old = g.get("EXTRACT") or (lambda repo: {})
+    def _extract(repo):
+        from . import common as _c
+        files, notes = {}, []
+        for fn in (old, lambda r: extract_for(pid + "Mut2", r)):
+            try:
+                files.update(fn(repo))
+            except _c.SourceDrift as e:
+                files.update(e.files)
+                notes.append(str(e))
+        if notes:
+            raise _c.SourceDrift(" || ".join(notes), files)
+        return files
+    g["EXTRACT"] = _extract
+
+
 # --------------------------------------------------------------------------------------------------- driver
+def _all_pids():
+    return (sorted(TABLE) + [q + "Loops" for q in sorted(TABLE_LOOPS)] + [q + "Mut" for q in sorted(TABLE_MUT)]
+            + [q + "Mut2" for q in sorted(TABLE_MUT2)])
+
+
 def extract_for(pid, repo):
     """{relpath under lean/: content} for one property; raises if a function left the translated subset.
-    `pid` is `Cxx` (TABLE: straight-line functions) or `CxxLoops` (TABLE_LOOPS: loops / iterator chains)."""
-    cfg = TABLE_LOOPS[pid[:-5]] if pid.endswith("Loops") else TABLE[pid]
+    `pid` is `Cxx` (TABLE: straight-line functions), `CxxLoops` (TABLE_LOOPS: loops / iterator chains) or `CxxMut`
+    (TABLE_MUT: in-place mutation / nested loops / decision trees)."""
+    cfg = (TABLE_LOOPS[pid[:-5]] if pid.endswith("Loops") else TABLE_MUT2[pid[:-4]] if pid.endswith("Mut2")
+           else TABLE_MUT[pid[:-3]] if pid.endswith("Mut") else TABLE[pid])
+    feats = _cargo_default_features(repo)
     sources = {}
     out = []
     out.append("/- GENERATED by tools/cv/srctie.py (EXTRACT_SRC, translator tools/rs2lean.py) from /repo/src — do not edit.\n"
                "%s\n"
                "Every definition below is the Lean transcription of the CURRENT Rust source text of one function:\n"
                "same expression tree (association, operand order, position of every unary minus), same conditions.\n"
-               "`Compute/Props/SrcTie%s.lean` proves each of them equal to the hand-written model. -/\n" % (cfg["about"], pid))
+               "`Compute/Props/SrcTie%s.lean` proves each of them equal to the hand-written model. -/\n" % (
+                   cfg["about"].replace("CFG_FEATURES below", "here: [%s]" % ", ".join(feats)), pid))
     for imp in cfg["imports"]:
         out.append("import %s\n" % imp)
     out.append("set_option linter.unusedVariables false\n")
@@ -515,6 +861,8 @@ def extract_for(pid, repo):
         try:
             if rel not in sources:
                 sources[rel] = rs2lean.Source(open(full).read())
+            if okw.get("cfg_features") == "CARGO":
+                okw = dict(okw, cfg_features=feats)
             lean = rs2lean.translate(sources[rel], path, Opts(**okw))
             out.append("-- %s :: %s\n%s\n" % (rel, path, lean))
         except (rs2lean.Unsupported, rs2lean.NotFound, OSError) as ex:
@@ -536,7 +884,7 @@ def extract_for(pid, repo):
 
 def EXTRACT_SRC(repo):
     files = {}
-    for pid in sorted(TABLE) + [q + "Loops" for q in sorted(TABLE_LOOPS)]:
+    for pid in _all_pids():
         files.update(extract_for(pid, repo))
     return files
 
@@ -558,7 +906,7 @@ def main(argv):
         else:
             pids.append(a)
             i += 1
-    pids = pids or (sorted(TABLE) + [q + "Loops" for q in sorted(TABLE_LOOPS)])
+    pids = pids or _all_pids()
     rc = 0
     for pid in pids:
         for rel, content in extract_for(pid, repo).items():
